@@ -551,6 +551,12 @@ func (fv *FuncVerifier) evalFuncCall(fn *types.Func, call *ast.CallExpr, st *Sta
 		}
 		if fd := fv.prog.decls[key]; fd != nil && fd.decl.Body != nil && autoInlinable(fd.decl) && len(fv.frames) < 6 {
 			fv.u.note("helper %s has no contract: its body is executed at the call site (auto-inlined)", key)
+			if hasRange(fd.decl) {
+				// a range loop in a helper without contract is accepted only when it unrolls
+				// (constant trip count at this call site, e.g. a packed variadic argument list)
+				fv.autoFrames++
+				defer func() { fv.autoFrames-- }()
+			}
 			return fv.inlineCall(fn, call, st)
 		}
 		reject("call to %s without contract at %s", key, fv.pos(call.Pos()))
@@ -1421,12 +1427,23 @@ func autoInlinable(fd *ast.FuncDecl) bool {
 	ok := true
 	ast.Inspect(fd.Body, func(n ast.Node) bool {
 		switch n.(type) {
-		case *ast.ForStmt, *ast.RangeStmt, *ast.GoStmt, *ast.SelectStmt, *ast.DeferStmt, *ast.SendStmt:
+		case *ast.ForStmt, *ast.GoStmt, *ast.SelectStmt, *ast.DeferStmt, *ast.SendStmt:
 			ok = false
 		}
 		return ok
 	})
 	return ok
+}
+
+func hasRange(fd *ast.FuncDecl) bool {
+	found := false
+	ast.Inspect(fd.Body, func(n ast.Node) bool {
+		if _, ok := n.(*ast.RangeStmt); ok {
+			found = true
+		}
+		return !found
+	})
+	return found
 }
 
 func containsReturn(n ast.Node) bool {
